@@ -79,6 +79,21 @@ class Replay:
             if reported >= max_report:
                 break
             r = proglib.run_vh(ctx, [prog], cfg=cfg)[prog["id"]]
+            if not r.get("fail") and fail.startswith("PROCESS DIED while analysing the batch") and self.last_batch:
+                # the Go runtime killed the process while the programs of the batch were analysed concurrently; alone the program is
+                # fine.  Analyse the whole batch twice more: a process that dies again both times is a reproduced failure of the
+                # code under test in that context (concurrent passes sharing state), anything else is not a verdict.
+                items, bcfg, seq, san, _proj = self.last_batch
+                died = []
+                for _rep in range(2):
+                    res = proglib.run_vh(ctx, [it[0] for it in items], cfg=bcfg, sequential=seq, sanity=san)
+                    died.append([pid for pid, rr in res.items() if (rr.get("fail") or "").startswith("PROCESS DIED")])
+                if all(died):
+                    ctx.violation("%d programs analysed concurrently in one process: the process dies (%s), again in two more runs of the same batch, "
+                                  "while each program alone is analysed normally" % (len(items), fail[:300]),
+                                  {"kind": "batch_context", "programs": len(items), "mismatching": [died[0][:20], died[1][:20]], "first": [fail[:600]]})
+                    return 1
+                raise vlib.ToolError("process death in a batch did not recur: %s" % fail[:300])
             if not r.get("fail"):
                 raise vlib.ToolError("crash did not reproduce for %s: %s" % (prog["id"], fail[:300]))
             ctx.violation("analysis failed (crash / error / hang): %s" % r["fail"].split("\n")[0][:300],
